@@ -118,3 +118,54 @@ def witness_for(res, extra=None):
     if s.check() != z3.sat:
         return None
     return s.model()
+
+
+# ------------------------------------------------------------------ second solver
+
+CROSS = {"checked": 0, "agree": 0, "disagree": [], "errors": 0, "every": int(os.environ.get("VERIF_CROSS_EVERY", "0"))}
+
+
+def cross_check(solver, result, what=""):
+    """re-decide a z3 query with cvc5 (every N-th query when enabled). `solver` holds the assertions,
+    `result` is z3's verdict.  A different verdict is recorded; callers treat it as inconclusive."""
+    n = CROSS["every"]
+    if n <= 0:
+        return True
+    CROSS.setdefault("seen", 0)
+    CROSS["seen"] += 1
+    if CROSS["seen"] % n != 0:
+        return True
+    import tempfile
+    text = solver.to_smt2()
+    text = "(set-logic ALL)\n" + "\n".join(l for l in text.split("\n") if not l.startswith("(set-info"))
+    with tempfile.NamedTemporaryFile("w", suffix=".smt2", dir=os.path.join(WORK, "tmp"), delete=False) as f:
+        f.write(text)
+        path = f.name
+    try:
+        r = subprocess.run(["cvc5", "--lang", "smt2", "--tlimit", "30000", path], stdout=subprocess.PIPE, stderr=subprocess.PIPE, text=True, timeout=60)
+        out = r.stdout.strip().split("\n")[0] if r.stdout.strip() else ""
+    except Exception as e:      # noqa
+        out = "error: %s" % e
+    finally:
+        try:
+            os.unlink(path)
+        except OSError:
+            pass
+    want = "sat" if result == z3.sat else "unsat" if result == z3.unsat else "unknown"
+    CROSS["checked"] += 1
+    if out == want:
+        CROSS["agree"] += 1
+        return True
+    if out in ("sat", "unsat"):
+        CROSS["disagree"].append("%s: z3 %s, cvc5 %s" % (what, want, out))
+        return False
+    CROSS["errors"] += 1       # timeout / unsupported construct: no second opinion for this query
+    return True
+
+
+def cross_begin():
+    return (CROSS["checked"], CROSS["agree"], CROSS["errors"])
+
+
+def cross_end(c0):
+    return {"checked": CROSS["checked"] - c0[0], "agree": CROSS["agree"] - c0[1], "no_answer": CROSS["errors"] - c0[2]}
